@@ -88,6 +88,17 @@ def run(chk):
                 runner.run_case(case2, conn=conn)
             finally:
                 conn.close()
+        if chk.tier != "quick":
+            # two requests a whole number of minutes apart with nothing in between (a client polling once a minute through an idle
+            # proxy): the second one's date is the time of the second one
+            case = pipegen.gen_case(rng, callers, st, spoof=False, dest_label="imds", with_key=True)
+            for ep in ("ws", "imds", "hostga"):
+                case["env"][ep] = None
+            t_first = time.time()
+            runner.run_case(case)
+            time.sleep(max(0.0, 60.0 - (time.time() - t_first)))
+            chk.count("request_one_minute_after_the_previous")
+            runner.run_case(dict(case, req=dict(case["req"]), label="one-minute-later"))
         runner.finish(oracle)
         chk.sample(runner.describe(runner.observations[0]))
     finally:
